@@ -264,7 +264,7 @@ def C01(run):
     q = run.quick()
     def plans(L):
         return [["dfs", "3" if q else "4"], ["--dedup", "bytes", "2"], ["rand", "1200" if q else "10000"],
-                ["--faults", "10", "rand", "120" if q else "2500"], ["texts"]]
+                ["--faults", "10", "rand", "120" if q else "2500"], ["texts"], ["--faults", "64", "hex", os.path.join(HARNESS, "corpus_faults.hex")]]
     mcs, tot, samples = _load_check(run, "C01", plans, what="decode-anything pipeline", mc_cfgs=("MC_Decoder_L2", "MC_Decoder_live"))
     # nesting far beyond any limit, and the nesting families around the limit: outcome shape, follow-up operations, sanitizers, watchdog only
     lib = build_lib(run, "dbg")
@@ -336,7 +336,9 @@ def C05(run):
     q = run.quick()
     def plans(L):
         return [["--noops", "dfs", "4" if q else "5"], ["--noops", "rand", "2000" if q else "12000"], ["--noops", "--dedup", "bytes", "2"],
-                ["--noops", "--faults", "24", "rand", "250" if q else "1500"], ["--noops", "--faults", "12", "dfs", "3"]]
+                ["--noops", "--faults", "24", "rand", "250" if q else "1500"], ["--noops", "--faults", "12", "dfs", "3"],
+                # every request of a small corpus of growing containers and chunked strings (tables that grow at the 2nd, 3rd, 5th, 9th member)
+                ["--noops", "--faults", "64", "hex", os.path.join(HARNESS, "corpus_faults.hex")]]
     # the default build and one with a small nesting limit, so that "at the limit" is inside the enumerated space
     mcs, tot, samples = _load_check(run, "C05", lambda L: plans(L) if L is None else [["--noops", "dfs", "4" if q else "5"], ["--noops", "nest"]], Ls=(None, 3),
                                     what="cbor_load failure report", mc_cfgs=("MC_Decoder_L1", "MC_Decoder_L2", "MC_Decoder_L3"))
